@@ -59,6 +59,12 @@ func (w *World) evalScope() []*ssa.Function {
 func (w *World) riskSites() []riskSite {
 	var out []riskSite
 	for _, fn := range w.evalScope() {
+		if w.irrelevantFn(fn) {
+			continue
+		}
+		if sc := w.faultScope(); sc != nil && !sc[fn] {
+			continue
+		}
 		for _, b := range fn.Blocks {
 			for _, in := range b.Instrs {
 				switch x := in.(type) {
